@@ -386,8 +386,12 @@ def _judge(w, expect, ex, by_t, stats, out, alt):
         out.add("C11.unicast-extra", f"{qd}: unicast reply contains {extra[:3]} which should not go by unicast "
                 f"(multicast-now set {list(M.values())[:3]})", legacy=ex["legacy"], probe=ex["probe"])
     for tx in uni:
-        if tx.sock != ex["sock"]:
-            out.add("C11.unicast-wrong-socket", f"{qd}: received on {ex['sock']} but unicast reply sent from {tx.sock}")
+        # (another query of the same source delivered in the same instant, on another socket: the reply that echoes
+        # its id is its reply, sent from its socket)
+        owner = next((e2 for e2 in expect if e2 is not ex and e2["t"] == t and e2["src"] == ex["src"] and
+                      e2["id"] == tx.msg.id and e2["id"] != ex["id"]), ex)
+        if tx.sock != owner["sock"]:
+            out.add("C11.unicast-wrong-socket", f"{qd}: received on {owner['sock']} but unicast reply sent from {tx.sock}")
         if any(r.flush for r in tx.msg.records()):
             out.add("C11.unicast-flush-bit", f"{qd}: unicast reply carries a cache-flush bit")
         if ex["legacy"]:
